@@ -14,6 +14,7 @@ import (
 	"runtime"
 	"sort"
 	"strings"
+	"syscall"
 	"time"
 
 	"seehuhn.de/go/sfnt/zzverif/simhook"
@@ -394,6 +395,7 @@ func Main(p *Property) {
 	replay := fs.String("replay", "", "")
 	_ = fs.Bool("noshrink", false, "ignored (kept for compatibility)")
 	shrink := fs.String("shrink", "", "minimise the tape of this replay file")
+	tapeOut := fs.String("tapeout", "", "record every tape value of the (single) case to this file as it is drawn")
 	plan := fs.Bool("plan", false, "emit the number of cases of the tier and exit")
 	digest := fs.Bool("digest", false, "emit a per-case digest line (determinism self-test)")
 	fs.Parse(args)
@@ -488,6 +490,14 @@ func Main(p *Property) {
 	for i := *from; i < *to; i++ {
 		emit(&outLine{K: "start", Case: i})
 		t := tape.New(tape.CaseSeed(*seed, p.ID, i))
+		if *tapeOut != "" {
+			tfd, err := syscall.Open(*tapeOut, syscall.O_WRONLY|syscall.O_CREAT|syscall.O_TRUNC, 0o644)
+			if err != nil {
+				fmt.Fprintln(os.Stderr, "worker: tapeout:", err)
+				os.Exit(2)
+			}
+			t.RecordTo(tfd)
+		}
 		v, c := RunOnce(p, t, *tier, i, false)
 		total.Cases++
 		if *digest {
